@@ -271,7 +271,7 @@ def check_solver(acc, n, edges):
     except Exception as e:
         import traceback
         tb = traceback.extract_tb(e.__traceback__)
-        acc.violation("solve", "TimeReversedSolver.solve", "raises-%s" % type(e).__name__, case,
+        acc.violation("solve", "TimeReversedSolver.solve", "raises", case,
                       "a circuit", "%s in %s" % (repr(e)[:200], tb[-1].name if tb else "?"))
         return
     if circ.n_emitters != want:
